@@ -97,6 +97,9 @@ func c10Trigger(kind string) SAct {
 		return SAct{Op: "failread"}
 	case "wfail":
 		return SAct{Op: "wfail", On: true}
+	case "wfail:deadline", "wfail:canceled", "wfail:eof":
+		// the transport's own error wraps a context error / io.EOF while the connection context is alive
+		return SAct{Op: "wfail", On: true, Kind: kind[len("wfail:"):]}
 	}
 	return SAct{Op: "stop"}
 }
@@ -199,7 +202,11 @@ func TestC10(t *testing.T) {
 	for nu := 0; nu <= maxH; nu++ {
 		for ns := 0; ns <= maxH; ns++ {
 			for _, mode := range []string{"recv", "send", "await", "gate", "respond", "rstpark", "fwdpark"} {
-				for _, trig := range []string{"failread", "wfail", "stop"} {
+				trigs := []string{"failread", "wfail", "stop"}
+				if mode == "respond" || mode == "send" {
+					trigs = append(trigs, "wfail:deadline", "wfail:canceled", "wfail:eof")
+				}
+				for _, trig := range trigs {
 					n := len(c10BaseActs(c10Base{nu: nu, ns: ns, mode: mode}))
 					for pos := 0; pos <= n; pos++ {
 						run(c10Base{nu: nu, ns: ns, mode: mode, trigger: trig, pos: pos})
@@ -231,7 +238,7 @@ func TestC10(t *testing.T) {
 	for i := 0; i < nWalk; i++ {
 		rnd := newRand(int64(31000 + i))
 		walk := svWalk(rnd, 6+rnd.Intn(20), true)
-		trig := []string{"failread", "wfail", "stop"}[rnd.Intn(3)]
+		trig := []string{"failread", "wfail", "stop", "wfail:deadline", "wfail:canceled", "wfail:eof"}[rnd.Intn(6)]
 		phase := 0
 		guard := 0
 		script := func(r *svRig, step int) *SAct {
